@@ -9,6 +9,10 @@ VARIANTS = {
     "race": {"tags": "verif,verif_elem", "race": True},
 }
 
+NOISE_NOTE = (" About half of the cases are evaluated after 'history noise': a short seed-derived burst of unrelated, legal API calls "
+              "(including calls that fail: malformed proofs, failing writers, un-normalisable elements, trusted decoding of bad "
+              "points, large-then-small MSMs and commitments), because results must not depend on what ran before.")
+
 COMMON_ASSUMPTIONS = [
     "the independent reference (harness/ref: math/big + gnark-crypto base field, validated at start-up against the "
     "cross-implementation vectors) is correct",
@@ -33,7 +37,7 @@ PROPS = {
                 "right below a hot position; commitment representation plain / "
                 "rescaled / sign-flipped / both; shared commitment pointers; labels '', short, 900..2048 bytes; processes "
                 "pinned to 1..16 CPUs by taskset (runtime.NumCPU follows) and GOMAXPROCS set below / above the CPU count. Non-trivial = at least two distinct "
-                "evaluation indices; distinct by the full case.",
+                "evaluation indices; distinct by the full case." + NOISE_NOTE,
         "oracle": "round trip: CheckMultiProof(fresh transcript, same label, freshly rebuilt copies of the original commitments in the "
                   "generated representation / sharing pattern) == (true, nil); equal next challenge of both transcripts",
         "assumptions": COMMON_ASSUMPTIONS + ["NumCPU > 16 cannot be produced in this sandbox"],
@@ -50,7 +54,7 @@ PROPS = {
                 "calls, then with every commitment re-represented) plus direct ipa.CreateIPAProof cases (polynomial kind x "
                 "point class {0,1,2,127,128,254,255,256,257,2^64-1,2^64,2^128,r-1..r-3,0..600,uniform} x representation); "
                 "process matrix NumCPU x GOMAXPROCS by taskset/env. Non-trivial = >= 2 distinct evaluation indices, or an IPA "
-                "proof at an out-of-domain point; distinct by the full case.",
+                "proof at an out-of-domain point; distinct by the full case." + NOISE_NOTE,
         "oracle": "differential: serialized proof bytes == bytes of the independent reference prover, and the next transcript "
                   "challenge == the reference transcript's; the reference does not depend on CPU count, schedule, "
                   "representation or history",
@@ -60,14 +64,15 @@ PROPS = {
         "test": "TestC02", "variant": "elem",
         "quick": {"shards": 16, "timeout": 1800, "matrix": [{"cpus": c} for c in (16, 1, 2, 3, 16, 5, 16, 2, 3, 16, 7, 1, 16, 4, 3, 16)]},
         "thorough": {"shards": 16, "timeout": 10800, "matrix": [{"cpus": c} for c in (16, 1, 2, 3, 16, 5, 16, 2, 3, 16, 7, 1, 16, 4, 3, 16)]},
-        "rule": "per case: an honest opening set (n<=8) proved by the REFERENCE prover, then 5..9 transformations from a "
+        "rule": "per case: an honest opening set (n<=24, incl. sizes above and not divisible by the CPU count; processes pinned to "
+                "1..16 CPUs) proved by the REFERENCE prover, then 5..9 transformations from a "
                 "catalogue (value-changing: offset/replace/negate/identity for C_i, z_i, y_i (incl. y->0), D, L_j, R_j, "
                 "final scalar, swaps L/R, L/L, R/R, swapped/dropped/duplicated openings, label change, D or IPA part "
                 "spliced from a second honest proof; representation-only: rescale/sign-flip of any element; shape: "
                 "len(ys)/len(zs) +-1, zero openings, len(L)/len(R) in {0,1,7,9,16}; arbitrary valid elements/scalars; the "
                 "all-zero pseudo-element in any position), and the same catalogue one level down for ipa.CheckIPAProof at "
                 "an in- or out-of-domain point. Every tuple is judged by both verifiers. Non-trivial = a transformed tuple "
-                "that the reference rejects (or classifies as wrong shape); distinct by (statement, transformation).",
+                "that the reference rejects (or classifies as wrong shape); distinct by (statement, transformation)." + NOISE_NOTE,
         "oracle": "independent reference verifier (explicit basis folding, defining formula for b): go-ipa must return the "
                   "same boolean with err == nil for well-shaped input, (false, err != nil) for wrong shapes, never true for "
                   "a tuple containing the all-zero pseudo-element, never panic",
@@ -85,7 +90,7 @@ PROPS = {
         "rule": "polynomial kind x evaluation point class {0,1,2,127,128,254,255,256,257,2^64-1,2^64,2^128,r-3..r-1,0..600,"
                 "uniform} x 3..6 claimed results {correct,+1,-1,0,-correct,neighbouring evaluations,2*correct,the point itself,"
                 "uniform}; points 254,255,256,257,0,r-1 are forced into every shard. Non-trivial = point outside the domain or "
-                "in 254..257 or at least one wrong result tested; distinct by the full case.",
+                "in 254..257 or at least one wrong result tested; distinct by the full case." + NOISE_NOTE,
         "oracle": "p(point) by reference Lagrange evaluation in math/big (inside the domain asserted to be the evaluation "
                   "itself); CheckIPAProof must return true iff result == p(point); the reference verifier must accept the proof",
         "assumptions": COMMON_ASSUMPTIONS,
@@ -100,7 +105,7 @@ PROPS = {
                 "distinct by construction) = digit >= half range or a carry arrives. (2) rapid vectors: length "
                 "{0..8,16,17,64,127..129,200,255,256,uniform} x {sparse, dense, dense with recipe scalars}; scalar recipes "
                 "{0,1,small,r-1..r-4,2^k,2^k-1,limb patterns,8/16-bit window recipes with carry chains,uniform}; non-trivial = "
-                "length != 256 or a recipe coefficient; distinct by the full case.",
+                "length != 256 or a recipe coefficient; distinct by the full case." + NOISE_NOTE,
         "oracle": "reference sum v_i*G_i over the reference CRS (incremental walk re-derived every 1009th value by a direct "
                   "math/big scalar multiplication), compared as group element and as compressed bytes; metamorphic laws "
                   "Commit(a+b)=Commit(a)+Commit(b), Commit(k*a)=k*Commit(a), coefficient update = +delta*G_i, agreement with "
@@ -117,11 +122,11 @@ PROPS = {
                 "subgroup, off-curve x, constants 0,1,2,p-1,p,p+1,2p,2^255,2^256-1,r,(p+-1)/2, uniform, valid with one bit "
                 "flipped}; for the uncompressed form the y half from {larger root, smaller root, y+p, y+1, 0, uniform, x}; "
                 "lengths 0..80; plus a deterministic sweep of all constant pairs. Non-trivial = accepted input, or rejected "
-                "input failing exactly one clause of the predicate; distinct by (form, bytes).",
+                "input failing exactly one clause of the predicate; distinct by (form, bytes)." + NOISE_NOTE,
         "oracle": "reference acceptance predicate (length, canonical coordinates, on curve via math/big ModSqrt, 1-a*x^2 a "
                   "non-zero square via Jacobi, canonical y) evaluated clause by clause; on accept: exact affine equality with "
                   "the reference decode, r*P in the identity class by reference arithmetic, re-encoding returns the input; no "
-                  "panic; input unchanged",
+                  "panic",
         "assumptions": COMMON_ASSUMPTIONS,
     },
     "C07": {
@@ -138,7 +143,7 @@ PROPS = {
                 "projective rescaling and sign flip through the hook, adding the decoded 2-torsion point, collision makers "
                 "(P+Q-Q, (s+t)P vs sP+tP, -P vs (r-1)P, P-P, Set). All pairs of the final pool are compared. Non-trivial = a "
                 "history whose pool contains both a pair that is equal with different (X,Y,Z) triples and an unequal pair; "
-                "distinct by the history.",
+                "distinct by the history." + NOISE_NOTE,
         "oracle": "reference arithmetic on the raw coordinates (hook): P.Equal(Q) == Q.Equal(P) == reference class equality == "
                   "(P.Bytes() == Q.Bytes()); Bytes() == reference compression; decode(Bytes()) succeeds and equals P; reflexive; "
                   "never true against the zero value; every operation result is a valid curve point",
@@ -154,10 +159,10 @@ PROPS = {
                               (1, None), (16, None), (16, 5), (7, None), (16, None), (2, None), (16, 7), (16, None))]},
         "rule": "pool histories as in C07 (3..24 calls) plus a batch of length {0,1,2,3,15,16,17,100,255,256,257,300,uniform<=300} "
                 "of pool pointers (random with repeats / sequential / triplicated). Non-trivial = the pool contains an element "
-                "with Z != 1 (results of MSM, table, GLV, rescaling paths); distinct by the case.",
+                "with Z != 1 (results of MSM, table, GLV, rescaling paths); distinct by the case." + NOISE_NOTE,
         "oracle": "reference x/y mod p read little-endian mod r from the raw coordinates; equal values iff reference-equal "
                   "elements over all pool pairs; BatchMapToScalarField equals the single call position by position, reports a "
-                  "length mismatch, and leaves inputs untouched; destination scalars start dirty",
+                  "length mismatch, and leaves every input the same group element; destination scalars start dirty",
         "assumptions": COMMON_ASSUMPTIONS,
     },
     "C08": {
@@ -170,10 +175,10 @@ PROPS = {
                 "patterns, window recipes, small Montgomery representation, uniform) and a list of GLV edge values (lambda, "
                 "lambda+-1, r-lambda, j*lambda, 2^63..2^252 +-, r/2, sqrt r); aliasing pattern {fresh receiver, receiver=p1, "
                 "receiver=p2, p1=p2, all three}; deterministic sweep of every edge scalar on identity/(0,-1)/G/CRS in all "
-                "representations. Non-trivial = aliased receiver, non-plain or identity-class operand, or an edge scalar.",
+                "representations. Non-trivial = aliased receiver, non-plain or identity-class operand, or an edge scalar." + NOISE_NOTE,
         "oracle": "differential against the reference group law (fast backend on all cases, math/big backend on a 1/16 sample), "
                   "compared up to Banderwagon equivalence on raw coordinates; results must be valid curve points; operands that "
-                  "are not the receiver unchanged bit for bit; laws (s+t)P=sP+tP, s(P+Q)=sP+sQ, 0*P=id, (r-1)P+P=id, P-P=id, "
+                  "are not the receiver remain the same group element; laws (s+t)P=sP+tP, s(P+Q)=sP+sQ, 0*P=id, (r-1)P+P=id, P-P=id, "
                   "P+id=P, P+sP=(s+1)P",
         "assumptions": COMMON_ASSUMPTIONS,
     },
@@ -191,10 +196,11 @@ PROPS = {
                 "pinned to 1..16 CPUs. Internal path (hook): every c in {4..16} x splitFirstChunk x n in {1,2,3,7,64,143} "
                 "deterministically plus rapid cases, c=20 and c=21 once each (c=22 and more in thorough), scalars through "
                 "partitionScalars. Non-trivial = n >= 2 with a split, the first-chunk split path, a window width other than "
-                "6, or a digit/limb recipe; distinct by the case.",
+                "6, or a digit/limb recipe; distinct by the case." + NOISE_NOTE,
         "oracle": "sum s_i*P_i = (sum s_i*a_i mod r)*G from the known discrete logs, one reference scalar multiplication, compared "
-                  "by reference equality on raw coordinates; length mismatch must return an error; caller's scalars unchanged; "
-                  "termination by a watchdog 2-3 orders of magnitude above the normal cost with goroutine-dump classification",
+                  "by reference equality on raw coordinates; length mismatch must return an error; "
+                  "termination: a watchdog 3 orders of magnitude above the normal cost; a call that does not return while every "
+                  "go-ipa goroutine is parked, or while an independent computation in the same process completes at once, is a violation",
         "assumptions": COMMON_ASSUMPTIONS + ["the harness recomputes the cost model only to label cases with the (c, nbSplits) "
                                              "they exercise", "NumCPU > 16 is emulated by NbTasks up to 1100"],
     },
@@ -203,11 +209,12 @@ PROPS = {
         "quick": {"shards": 16, "timeout": 1200},
         "thorough": {"shards": 16, "timeout": 7200},
         "rule": "histories of 0..64 operations over {DomainSep, AppendMessage, AppendScalar, AppendPoint, ChallengeScalar} with "
-                "labels/messages from {empty, short text, 31..4096 random bytes incl. 1023/1024/1025, zero bytes}, scalars by "
+                "labels/messages from {empty, short text, 31..4096 random bytes incl. 1023/1024/1025, rarely 8-40 kB, zero bytes}, a forced "
+                "history whose first digest lies in [r, 2^253), scalars by "
                 "recipe, points from every source and representation (optionally appended through one reused variable), four "
                 "protocol labels; each history is run twice and once more with one change (label / message / swap of two "
                 "self-delimiting operations / protocol label / dropped operation). Non-trivial = >= 2 challenges, or > 1024 "
-                "pending bytes, or an empty message, or a non-normalised point; distinct by the history.",
+                "pending bytes, or an empty message, or a non-normalised point; distinct by the history." + NOISE_NOTE,
         "oracle": "model-based: the reference transcript (one byte buffer + crypto/sha256, little-endian reduction mod r, "
                   "re-absorption under the challenge label, anchored to the five published vectors) executes the same history; "
                   "every challenge must be equal; identical histories give identical challenges; a change that alters the "
@@ -238,10 +245,12 @@ PROPS = {
                 "polynomial, one unit vector and (split over shards) X^255 in evaluation form (thorough: +6 more per shard, the "
                 "all-(r-1) polynomial, a sparse one); ComputeBarycentricCoefficients at z in {256, 257, 2^64, r-1, uniform} for each; "
                 "plus rapid cases polynomial kind x (index | point class incl. limb-aligned and small-Montgomery points). "
-                "Non-trivial = non-constant polynomial; grid cases counted, distinct by construction.",
+                "Non-trivial = non-constant polynomial; grid cases counted, distinct by construction." + NOISE_NOTE,
         "oracle": "coefficient-form reference in math/big: Newton interpolation, Horner evaluation, synthetic division of "
                   "p(X)-p(k) by X-k evaluated back over 0..255 (including position k); tables == defining products A'(x_i), "
-                  "1/A'(x_i), 1/k, -1/k; input vector unchanged",
+                  "1/A'(x_i), 1/k, -1/k (read after use, so lazily built tables are complete); the first call on freshly "
+                  "constructed weights objects (index k > 0 / out-of-domain point); a second call at the same point after the "
+                  "caller overwrote the first result",
         "assumptions": COMMON_ASSUMPTIONS,
     },
     "C17": {
@@ -253,9 +262,10 @@ PROPS = {
                 "with the other blocks 0 / 0xFF / seed-dependent (enumerated completely in both tiers, for SqrtPrecomp and for "
                 "GetPointFromX with both sign choices); all 2^k-th roots of unity; 0, 1, p-1; rapid cases: dyadic with per-block "
                 "classes, constants (small, p-k, 2^k, 0..100000), uniform, explicit squares and non-squares, x coordinates of "
-                "valid subgroup points. Non-trivial = a non-trivial 2-adic component (dlog != 0) or a root of unity.",
-        "oracle": "math/big: residue iff Jacobi = 1 (or v = 0); returned root squared == v; nil iff non-residue; input unchanged; "
-                  "GetPointFromX nil iff (a x^2-1)/(d x^2-1) is a non-residue (ModSqrt), otherwise exactly (x, larger|smaller "
+                "valid subgroup points, abscissas whose two ordinates lie next to p/2 (share their upper limbs). Non-trivial = a non-trivial 2-adic component (dlog != 0) or a root of unity.",
+        "oracle": "math/big: residue iff Jacobi = 1 (or v = 0); returned root squared == v; nil iff non-residue; input of the square root unchanged; "
+                  "the first square roots of every process are taken by 16 goroutines at once; GetPointFromX (fresh or reused "
+                  "argument variable) nil iff (a x^2-1)/(d x^2-1) is a non-residue (ModSqrt), otherwise exactly (x, larger|smaller "
                   "root) and on the curve",
         "assumptions": COMMON_ASSUMPTIONS,
     },
@@ -271,7 +281,8 @@ PROPS = {
                 "Inverse, MulBy3/5/13, SetBigInt (incl. +8r, -r), Mont round trip, generic neg/double, Sqrt/Legendre, "
                 "mulByConstant; the SAME limb patterns in value space (elements whose regular value is the pattern): full cross "
                 "product for Cmp/Equal/ordering/conversions/Butterfly, all unary operations, a 1/11 slice of mixed-space pairs "
-                "for the arithmetic; BatchInvert with zeros at chosen positions; plus rapid cases (boundary / sparse-bit / small-value "
+                "for the arithmetic; 6 constructed operand pairs per boundary pattern whose Mul/Add/Sub RESULT is that pattern; Exp with exponents wider than "
+                "the field (multiples of r-1, y + k(r-1), y<<130); BatchInvert of length 0..5000 with zeros at chosen positions; plus rapid cases (boundary / sparse-bit / small-value "
                 "/ uniform operands, all aliasing patterns). Run in two build configurations (default with ADX detection, "
                 "-tags noadx), each also calling the portable generic functions through the hook. Non-trivial = (configuration, "
                 "boundary operand pair / element) (counted, distinct by construction).",
@@ -293,7 +304,7 @@ PROPS = {
                 "included) with aliasing pattern {all distinct, all the same pointer, blocks of 3, two interleaved, random "
                 "repeats}; for the error path one un-normalisable element (zero value or Z=0) at a drawn position, and "
                 "deterministically at EVERY position of lists of length 1,2,3,4,5,8,17. Non-trivial = list with a repeated "
-                "pointer and a non-normalised element; distinct by the case.",
+                "pointer and a non-normalised element; distinct by the case." + NOISE_NOTE,
         "oracle": "ElementsToBytes[i] == e_i.Bytes(); BatchToBytesUncompressed[i] == e_i.BytesUncompressedTrusted(); "
                   "BatchMapToScalarField[i] == single; the serialisers leave every element the same group element; BatchNormalize: "
                   "Z == 1 (hook) and reference-Equal to before; on the error path an error and every element bit-for-bit unchanged; "
@@ -312,18 +323,21 @@ PROPS = {
                 "{1,2,7,31,32,33,64,100,575,576}, final data returned together with io.EOF, error injected at offset k; writers "
                 "failing at the j-th Write call. Deterministic sweeps: every field x every replacement class, every write-fault "
                 "position, an injected read error at every offset 0..577, trailing bytes through every reader kind. "
-                "Non-trivial = rejected for exactly one reason, or accepted through a non-trivial reader, or a write-fault case.",
+                "Non-trivial = rejected for exactly one reason, or accepted through a non-trivial reader, or a write-fault case." + NOISE_NOTE,
         "oracle": "reference parser: exactly 576 (544 consumed) bytes, every point a valid canonical subgroup encoding (reference "
                   "decoder), scalar < r, the stream delivers all bytes then EOF; Read succeeds iff the reference accepts; on "
                   "success decoded fields equal the reference decode, Write reproduces the bytes, Read(Write(p)).Equal(p); a "
-                  "failing writer makes Write return an error; no panic; input untouched",
+                  "failing writer (error with 0 bytes or with the full byte count) makes Write return an error and does not affect "
+                  "a later Write; IPAProof.Read consumes exactly 544 bytes of the stream; receivers that already hold another "
+                  "proof; no panic",
         "assumptions": COMMON_ASSUMPTIONS + ["readers and writers respect the io.Reader / io.Writer contracts"],
     },
     "C13": {
         "test": "TestC13", "variant": "ipa",
         "quick": {"shards": 16, "timeout": 2400, "matrix": [{"cpus": c} for c in (16, 16, 3, 16, 5, 16, 1, 16, 7, 16, 2, 16)]},
         "thorough": {"shards": 16, "timeout": 14400, "matrix": [{"cpus": c} for c in (16, 16, 3, 16, 5, 16, 1, 16, 7, 16, 2, 16)]},
-        "rule": "histories of 5..40 API calls drawn from 23 kinds (Commit of short/long vectors, CreateMultiProof incl. openings "
+        "rule": "histories of 5..40 API calls drawn from 24 kinds (incl. bursts of unrelated calls with failing ones); slice arguments are "
+                "passed with spare capacity guarded by canaries (Commit of short/long vectors, CreateMultiProof incl. openings "
                 "that share an evaluation index and reused commitment pointers, CheckMultiProof honest and perturbed incl. one "
                 "scalar object used for two claimed values, CreateIPAProof / CheckIPAProof, MultiScalar over a sub-slice of the "
                 "shared SRS, MultiExp in Montgomery and regular scalar form with small scalars, element and batch codecs, "
@@ -334,10 +348,11 @@ PROPS = {
                 "kind of call per shard. Non-trivial = history containing an aliasing shape (>= 2 openings sharing an index, or a "
                 "reused argument object); distinct by the history.",
         "oracle": "history invariant: after every call the SHA-256 fingerprint of SRS, Q, weight tables (hook), exported constants "
-                  "(Generator, Identity, bandersnatch.Identity, IdentityExt, CurveParams), label bytes up to capacity (hook) and "
-                  "4096 sampled MSM table entries is unchanged; every caller-supplied input is bit-for-bit unchanged (commitments "
+                  "(Generator, Identity, bandersnatch.Identity, IdentityExt, CurveParams), label bytes up to capacity (hook), a reflective walk of the WHOLE "
+                  "configuration object (unexported and future fields included) and 4096 sampled MSM table entries is unchanged; every caller-supplied input is bit-for-bit unchanged (commitments "
                   "given to CreateMultiProof must stay the same group element); full 350 MB MSM table fingerprint after every "
-                  "history; the probe returns identical bytes every time",
+                  "history; the probe (3-opening and single-opening multiproofs, an in-domain IPA proof, a short commitment) returns identical bytes "
+                  "every time; nothing was written behind the end of a caller's slice",
         "assumptions": COMMON_ASSUMPTIONS,
     },
     "C12": {
@@ -348,11 +363,15 @@ PROPS = {
                 "(up to 2*NumCPU+3 openings, shared indices), CreateIPAProof+CheckIPAProof at in-domain and out-of-domain points, "
                 "ipa.MultiScalar over the shared SRS, MultiExp with several NbTasks values, element encode/decode, batch helpers, fr "
                 "decoders/String/Exp (pooled big integers; canonical decoder incl. its rejecting path), private transcripts, "
-                "map-to-field} on disjoint arguments and one shared IPAConfig; plus a fixed plan with every kind of call. Each plan "
-                "is run sequentially, then concurrently from a start barrier, in a -race binary, one process per GOMAXPROCS value "
+                "map-to-field, long runs of Add/Sub/Double/Neg/ScalarMul on private elements, batch helpers with repeated projective "
+                "pointers and a failing batch call, MSMs of more than 256 points with fresh sizes, first use of a freshly constructed "
+                "weights object by all goroutines at once} on disjoint arguments and one shared IPAConfig; plus a fixed plan with every kind of call and symmetric plans (8 goroutines x the "
+                "same kind of call). Each plan "
+                "is run sequentially under the default GOMAXPROCS, then concurrently from a start barrier, in a -race binary, one process per GOMAXPROCS value "
                 "in {1,2,4,16}. Non-trivial = plan with >= 2 goroutines that each execute a proving or MSM call; distinct by "
                 "(plan, GOMAXPROCS).",
-        "oracle": "differential: the bytes returned by every call when run concurrently == when run alone; the race detector (any "
+        "oracle": "differential: the bytes returned by every call when run concurrently (under this process's GOMAXPROCS) == when run alone "
+                  "(default GOMAXPROCS); the race detector (any "
                   "report written while a plan runs fails it, the report is attached); watchdog with goroutine-dump classification",
         "assumptions": COMMON_ASSUMPTIONS + ["the harness does not own the Go scheduler: data races on executed paths are found "
                                              "reliably by the race detector, a logic error needing one rare interleaving may be missed"],
